@@ -50,7 +50,10 @@ CLAIMED = {
              "collections where thresholds rarely do: every applicable single editing call on small mixed-content documents "
              "under allocation threshold 1; a held text node that is emptied, collected around and used again; and index "
              "arguments that are int subclasses firing gc.collect() at the k-th arithmetic/comparison inside the call (both "
-             "readings of an index - before/after coalescing - are accepted).",
+             "readings of an index - before/after coalescing - are accepted). The lock is a counter (translator obligation "
+             "c04_lock_is_counter over __init__/__enter__/__exit__) and for every properly nested use of `with _wrapper_cache:` "
+             "it equals the number of open blocks, so collections stay off until the outermost block ends "
+             "(c04_lock_counts_open_blocks, with c04_locked_noop).",
         note=TB + "Partial: when CPython collects and which temporaries library frames hold is runtime behaviour - explored "
              "(forced, threshold 1), not modelled. Fixed findings: head-text-node-only (3993e00), "
              "detach-retain-reordered-by-collection (cf2d205), index-lookups-across-a-collection (141256e).",
@@ -213,10 +216,21 @@ CLAIMED = {
              "enumerates exactly the visible child list in order, following/preceding sibling are inverse and move one "
              "index; the explicit-stack loop of iterate_descendants yields the pre-order; ancestors/depth are the parent "
              "chain; preceding-reversed ++ node ++ following is the document order; last_descendant, full_text and the three "
-             "traversers are characterised (Props/C05.lean). Tie to code: every relation of every node of forests reached by "
+             "traversers are characterised (Props/C05.lean). Filters: the filtered methods are modelled in the shape of the code "
+             "(Model/NavFilter.lean: the loops of fetch/iterate_following_siblings, the recursion of fetch_preceding_sibling, "
+             "iterate_children, the explicit-stack iterate_descendants with a guarded yield, iterate_ancestors, "
+             "iterate_following/preceding, first/last child, len, item access incl. negative indexes, index) and proved, for "
+             "every predicate and every tree, to yield exactly the unfiltered sequence restricted to matching nodes, fetch_* = "
+             "first match, index = number of matching earlier siblings, and the filtered partition of the document order "
+             "(c05_filtered_children, _index, _following_siblings, _preceding_siblings, _sibling_pointer, _descendants, "
+             "_ancestors, _following, _preceding, _partition). Tie to code: every relation of every node of forests reached by "
              "random edit histories on the real objects == compiled model == independent Python computation; filtered "
-             "iterators == restricted unfiltered ones for four type filters; document-order sort of random tag subsets.",
-        note=TB + "No ambient filters unless the filter is the subject; trees reachable by Legal histories.",
+             "iterators == restricted unfiltered ones for four type filters; under two of seven kind sets as default filters "
+             "every filtered relation of every node == the filtered model; document-order sort of random tag subsets.",
+        note=TB + "No ambient filters unless the filter is the subject; trees reachable by Legal histories. Where the code does "
+             "not simply restrict (modelled as it is): iterate_ancestors applies the given filters only, not the default ones; "
+             "index of a node hidden by the default filters raises InvalidCodePath; last_descendant follows filtered last "
+             "children and never enters a hidden node.",
         technique="Lean 4 theorems (walk invariants over the encoding, loop invariant for the explicit stack, partition by induction on paths) + differential correspondence",
         design="3/C05",
     ),
@@ -366,7 +380,10 @@ CLAIMED = {
              "filtered children, leaf __eq__) is modelled in Lean (Model/Compare.lean) and proved, for all trees and all "
              "filter predicates, to answer 'equal' iff the visible trees are structurally equal (attributes as dictionaries), "
              "to be symmetric and reflexive in its verdict, and to report a pair at equal addresses that really differs in the "
-             "reported aspect. Tie to code: the real compare_trees on (tree, point-mutated copy) pairs, both argument orders, "
+             "reported aspect; in particular a tree compares equal to its deep clone (plain tree and slot/chain encoding: "
+             "c17_clone_equal, c17_clone_equal_encoding) and to the tree read back from its own serialization "
+             "(c17_reparsed_equal, c17_reserialized_equal; exact verdict without the normal-form hypothesis: "
+             "c17_reparsed_verdict). Tie to code: the real compare_trees on (tree, point-mutated copy) pairs, both argument orders, "
              "six ambient filter settings vs the compiled model (verdict, difference kind, address).",
         note=TB + "Ambient filters are modelled as predicates on the node kind; attribute keys are unique per node (mapping).",
         technique="Lean 4 theorems (mutual induction over nested trees) + differential correspondence impl vs Lean model",
